@@ -172,12 +172,14 @@ def con_outcome(since, text):
 
 
 def tables(recipe, data, vals):
-    """ (line table, window table) as Coq text, by plain re / datetime """
+    """ (line table, window table) as Coq text, by plain re / datetime;
+    `data`: the bytes of the file, or a list of them (multi-file runs) """
+    datas = data if isinstance(data, list) else [data]
     defs = recipe['defs']
     sinces = [G.since_secs(c) for c in recipe['constraints']]
     comp = [RC.compile_def(d) for d in defs]
     ltab, seen = [], set()
-    for raw in G.split_lines(data):
+    for raw in [ln for dt in datas for ln in G.split_lines(dt)]:
         if raw in seen:
             continue
         seen.add(raw)
@@ -201,18 +203,29 @@ def tables(recipe, data, vals):
                     + f"] {vlib.zl(hs)} ["
                     + "; ".join(f"({c}, {o})" for c, o in cs) + "])")
     wtab, seen = [], set()
-    off = 0
-    for raw in G.split_lines(data):
-        w = data[off:off + 64]
-        off += len(raw)
-        if w in seen:
-            continue
-        seen.add(w)
-        ts = G.line_ts(w.decode('utf-8', errors='backslashreplace'))
-        wtab.append(f"({vlib.zl(list(w))}, "
-                    + ("None" if ts is None else f"Some {ts}") + ")")
+    for dt in datas:
+        off = 0
+        for raw in G.split_lines(dt):
+            w = dt[off:off + 64]
+            off += len(raw)
+            if w in seen:
+                continue
+            seen.add(w)
+            ts = G.line_ts(w.decode('utf-8', errors='backslashreplace'))
+            wtab.append(f"({vlib.zl(list(w))}, "
+                        + ("None" if ts is None else f"Some {ts}") + ")")
     return ("[" + "; ".join(ltab) + "]") if ltab else "[]", \
            ("[" + "; ".join(wtab) + "]") if wtab else "[]"
+
+
+def coq_sdef(defs, di):
+    d = defs[di]
+    k = di + 1
+    return (f"mkSdef {k} "
+            f"{vlib.zl([10 * k + j for j in range(len(d['patterns']))])} "
+            + (f"(Some {k})" if d.get('hint') else "None")
+            + f" {'true' if d['store'] else 'false'} {k} "
+            + vlib.zl([c + 1 for c in d['constraints']]))
 
 
 def coq_case(recipe, data, gz, vals):
@@ -230,15 +243,7 @@ def coq_case(recipe, data, gz, vals):
     for di, _, allow in run['adds']:
         if not allow:
             restr.insert(0, di + 1)          # add_restriction conses
-    sdefs = []
-    for di, _, _ in run['adds']:
-        d = defs[di]
-        k = di + 1
-        sdefs.append(
-            f"mkSdef {k} {vlib.zl([10 * k + j for j in range(len(d['patterns']))])} "
-            + (f"(Some {k})" if d.get('hint') else "None")
-            + f" {'true' if d['store'] else 'false'} {k} "
-            + vlib.zl([c + 1 for c in d['constraints']]))
+    sdefs = [coq_sdef(defs, di) for di, _, _ in run['adds']]
     ltab, wtab = tables(recipe, data, vals)
     return (f"({mx}, {nb}, ({raw_size}, {'true' if gz else 'false'}, "
             f"{vlib.zl(list(data))}), {since}, {vlib.zl(restr)}, "
@@ -337,3 +342,250 @@ def run_e2e(chk, n=50, tag='e2e'):
         if m.get('skipped_lines'):
             chk.dist('e2e-seek-skips-lines')
     return len(mism)
+
+
+# ===================================================== multi-file runs (C02)
+RUNNER_MP = 'e2e_run_mp'
+
+PREAMBLE_MP = PREAMBLE + r"""
+From SK Require Import Model.Pipeline Model.RunMp Spec.RunMp.
+From SK Require Gen.Exprs.
+
+(* a schedule that returns, for any batch structure and any Q >= 1: every
+   batch is put and collected at once, the futures complete in REVERSE
+   submission order, then the purge finds the queue empty and returns *)
+Definition canon_sched (P : list (list (list Z))) : list action :=
+  flat_map (fun t => flat_map (fun _ => [Put t; Collect]) (nth t P []))
+           (seq 0 (length P))
+  ++ map Finish (rev (seq 0 (length P))) ++ [StartPurge; Return].
+
+Definition e2e_case_mp : Type :=
+  Z * Z * option Z * list Z * list ((Z * bool * list Z) * list sdef)
+  * list (list Z * tline) * list (list Z * option Z).
+
+(* [per file: results per distinct definition; statistics; model = spec ?] *)
+Definition e2e_run_mp (c : e2e_case_mp) : jv :=
+  let '(mx, nb, since, restr, fls, ltab, wtab) := c in
+  let files := map (fun fd : (Z * bool * list Z) * list sdef =>
+                     let '((rs, gz, bytes), ds) := fd in
+                     mkMfile (mkFile rs (if gz then Gz else Plain) bytes) ds)
+                   fls in
+  let cl := e2e_classify ltab in
+  let tw := e2e_tsw wtab in
+  match file_tasks SEEK_HORIZON MAX_SEEK_HORIZON_EXPAND
+                   MAX_TRY_FIND_WITH_DATE_ATTEMPTS MAX_DATETIME_READ_BYTES
+                   tw tline cl t_omatch t_ohint t_ocon mx nb since restr
+                   files with
+  | GDone l =>
+      let sched := canon_sched (payloads l) in
+      match run_files SEEK_HORIZON MAX_SEEK_HORIZON_EXPAND
+                      MAX_TRY_FIND_WITH_DATE_ATTEMPTS MAX_DATETIME_READ_BYTES
+                      tw tline cl t_omatch t_ohint t_ocon mx nb
+                      Gen.Exprs.run_uses_pool 1 sched (mkStats 5 [5] 5 5 5 5)
+                      since restr files with
+      | MpOk coll st =>
+          let spec := spec_run_mp MAX_DATETIME_READ_BYTES tw tline cl
+                                  t_omatch t_ohint t_ocon since restr files in
+          JL [JL (map (fun tm => view_jv (simple_view (distinct (mf_defs
+                                   (snd tm))) (mp_find (fst tm) coll)))
+                      (combine (seq 0 (length files)) files));
+              stats_jv st;
+              JB (match observe_mp files (MpOk coll st) with
+                  | Some (v, s) =>
+                      jv_eqb (JL [JL (map full_jv v); stats_jv s])
+                             (JL [JL (map full_jv (fst spec));
+                                  stats_jv (snd spec)])
+                  | None => false
+                  end)]
+      | MpNotReturned => JL [JZ (-4)]
+      | MpHangs => JL [JZ (-2)]
+      | MpRaises => JL [JZ (-3)]
+      end
+  | GHangs => JL [JZ (-2)]
+  | GRaises => JL [JZ (-3)]
+  end.
+"""
+
+
+def gen_case_mp(rng, base, idx):
+    d = os.path.join(base, f"e2emp{idx}")
+    nfiles = rng.choice([2, 2, 3, 4])
+    files, datas, gzs = {}, {}, {}
+    for i in range(nfiles):
+        if rng.random() < 0.1:
+            data = b''
+        else:
+            data = G.gen_log(rng, rng.choice([1, 3, 5, 8, 13]),
+                             undated_p=rng.choice([0.0, 0.2, 0.4]),
+                             final_newline=rng.random() < 0.7, long_p=0.0)
+        gz = None
+        if rng.random() < 0.2:
+            gz = {'level': 6, 'cuts': [], 'mtime': 0}
+        name = f"f{i}.log"
+        files[name] = (data, gz)
+        datas[name], gzs[name] = data, gz
+    skrun.materialise(d, files)
+    use_global = rng.random() < 0.7
+    cons = RC.gen_constraints(rng, 3)
+    if use_global and rng.random() < 0.7:
+        stamps = [s for s in (G.line_ts(ln.decode())
+                              for dt in datas.values()
+                              for ln in G.split_lines(dt)) if s is not None]
+        if stamps:
+            from datetime import datetime, timedelta
+            s = rng.choice(sorted(stamps)[1:] or stamps)
+            cur = datetime.fromordinal(s // 86400) + timedelta(
+                seconds=s % 86400, hours=24)
+            cons[0] = {'current': cur.strftime(G.TS_FMT), 'days': 0,
+                       'hours': 24}
+    defs = RC.gen_defs(rng, 3, nsimple=rng.choice([2, 3]), nseq=0,
+                       allow_cons=True)
+    for dd in defs:
+        dd['constraints'] = [c for c in dd['constraints'] if c != 0]
+    pats, hint = rng.choice(BROAD_POOL)
+    defs[0]['patterns'], defs[0]['hint'] = list(pats), hint
+    adds = []
+    restricted = set()
+    if use_global and rng.random() < 0.25:
+        restricted.add(rng.randrange(len(defs)))
+    for name in files:
+        picked = [i for i in range(len(defs)) if rng.random() < 0.7] or [0]
+        for di in picked:
+            adds.append([di, name, di not in restricted])
+        if rng.random() < 0.2:
+            adds.append([picked[0], name, picked[0] not in restricted])
+    run = {'global': 0 if use_global else None, 'decode_errors': None,
+           'max_parallel_tasks': rng.choice([1, 2, 8]), 'adds': adds,
+           'new_searcher': True}
+    recipe = {'dir': d, 'constraints': cons, 'defs': defs, 'runs': [run]}
+    if rng.random() < 0.5:
+        recipe['patch'] = {'NUM_BUFFERED_RESULTS': rng.choice([1, 2, 5]),
+                           'TRANSIT_MAX': rng.choice([1, 2, 3])}
+    return recipe, datas, gzs, restricted
+
+
+def coq_case_mp(recipe, order, datas, gzs, vals):
+    defs = recipe['defs']
+    run = recipe['runs'][0]
+    pt = recipe.get('patch') or {}
+    mx = pt.get('TRANSIT_MAX', 'TRANSIT_MAX')
+    nb = pt.get('NUM_BUFFERED_RESULTS', 'NUM_BUFFERED_RESULTS')
+    since = 'None'
+    if run['global'] is not None:
+        since = f"(Some {G.since_secs(recipe['constraints'][run['global']])})"
+    restr = []
+    for di, _, allow in run['adds']:
+        if not allow:
+            restr.insert(0, di + 1)
+    fls = []
+    for name in order:
+        raw_size = os.path.getsize(os.path.join(recipe['dir'], name))
+        sdefs = [coq_sdef(defs, di) for di, nm, _ in run['adds']
+                 if nm == name]
+        fls.append(f"(({raw_size}, {'true' if gzs[name] else 'false'}, "
+                   f"{vlib.zl(list(datas[name]))}), ["
+                   + "; ".join(sdefs) + "])")
+    ltab, wtab = tables(recipe, [datas[n] for n in order], vals)
+    return (f"({mx}, {nb}, {since}, {vlib.zl(restr)}, ["
+            + "; ".join(fls) + f"], {ltab}, {wtab})")
+
+
+def impl_want_mp(recipe, obs, order, vals):
+    run = recipe['runs'][0]
+    per_file = []
+    for name in order:
+        rows = obs['results'].get(name, [])
+        ds = []
+        for di, nm, _ in run['adds']:
+            if nm == name and di not in ds:
+                ds.append(di)
+        per_file.append([[di + 1, [[r[0], [vals(v) for v in r[2]]]
+                                   for r in rows
+                                   if r[1] == recipe['defs'][di]['tag']]]
+                         for di in ds])
+    st = obs['stats']
+    return [per_file,
+            [st['searches'], st['searches_by_job'], st['lines_searched'],
+             st['jobs_completed'], st['total_jobs'], st['results']], 1]
+
+
+def e2e_cases_mp(chk, n=7):
+    """ multi-file runs, each in a fresh interpreter (own process group,
+    hard time limit) -> (cases, wants, metas) for
+    vlib.eval_cases(chk.work, 'e2emp', IMPORTS, PREAMBLE_MP, RUNNER_MP, ..) """
+    base = tempfile.mkdtemp(prefix='e2emp_', dir=chk.work)
+    cases, wants, metas = [], [], []
+    for idx in range(n):
+        recipe, datas, gzs, restricted = gen_case_mp(chk.rng, base, idx)
+        r = skrun.run_fresh(recipe, timeout=120, workdir=base)
+        meta = {'idx': idx, 'files': len(datas),
+                'global': recipe['runs'][0]['global'] is not None,
+                'restricted': bool(restricted),
+                'patch': recipe.get('patch'),
+                'workers': recipe['runs'][0]['max_parallel_tasks'],
+                'recipe': {k: recipe[k] for k in ('constraints', 'defs',
+                                                  'runs')},
+                'contents_hex': {k: v.hex() for k, v in datas.items()}}
+        if r['obs'] is None:
+            meta['failed'] = {'timeout': r['timeout'], 'err': r['err']}
+            metas.append(meta)
+            cases.append(None)
+            wants.append(None)
+            continue
+        obs = r['obs'][0]
+        meta['exc'] = obs['exc']
+        order = obs['files']
+        vals = RC.Interner()
+        cases.append(coq_case_mp(recipe, order, datas, gzs, vals))
+        if obs['exc']:
+            wants.append([-9])
+        else:
+            wants.append(impl_want_mp(recipe, obs, order, vals))
+            meta['impl_stats'] = obs['stats']
+            meta['nresults'] = obs['stats']['results']
+            meta['skipped_lines'] = sum(
+                len(G.split_lines(dt)) for dt in datas.values()
+            ) - obs['stats']['lines_searched']
+        metas.append(meta)
+    return cases, wants, metas
+
+
+def run_e2e_mp(chk, n=7, tag='e2emp'):
+    """ generate, run for real, evaluate the composed multi-file model in
+    Coq, report through chk; returns the number of disagreeing cases """
+    cases, wants, metas = e2e_cases_mp(chk, n)
+    bad = 0
+    keep = [i for i, c in enumerate(cases) if c is not None]
+    for i, m in enumerate(metas):
+        if 'failed' in m:
+            bad += 1
+            chk.violation('e2emp-run-did-not-complete',
+                          {'case': m}, witness=bool(m['failed']['timeout']))
+    mism, errs = vlib.eval_cases(chk.work, tag, IMPORTS, PREAMBLE_MP,
+                                 RUNNER_MP, [cases[i] for i in keep],
+                                 [wants[i] for i in keep])
+    for e in errs:
+        chk.broken.append({'obligation': 'e2e multi-file cases evaluation',
+                           'why': e})
+    chk.coverage['evaluations'] += len(keep)
+    chk.coverage['distinct_nontrivial'] += sum(
+        1 for i in keep if metas[i].get('nresults'))
+    for j, got in mism:
+        i = keep[j] if j >= 0 else -1
+        m = metas[i] if i >= 0 else {}
+        agrees = isinstance(got, list) and len(got) == 3 and got[2] == 1
+        bad += 1
+        chk.violation('e2emp-model-differs ' + (
+            'results' if isinstance(got, list) and len(got) == 3
+            and got[0] != wants[i][0] else 'stats-or-outcome'),
+            {'case': m, 'model': got, 'impl': wants[i] if i >= 0 else None},
+            witness=agrees)
+    for m in metas:
+        chk.dist(f"e2emp-files-{m['files']}")
+        if m['global']:
+            chk.dist('e2emp-global')
+        if m.get('skipped_lines'):
+            chk.dist('e2emp-seek-skips-lines')
+        if m['restricted']:
+            chk.dist('e2emp-restricted')
+    return bad
